@@ -17,7 +17,15 @@ import (
 
 // verifyFunction generates the obligations of f against its contract (ct may be nil in sweep mode)
 func (p *Program) verifyFunction(f *ssa.Function, ct *Contract, sweep, refute bool) (vc *VC, err error) {
+	return p.verifyFunctionOpt(f, ct, sweep, refute, 0)
+}
+
+// verifyFunctionOpt: unroll > 0 sets the loop unrolling bound (refutation mode)
+func (p *Program) verifyFunctionOpt(f *ssa.Function, ct *Contract, sweep, refute bool, unroll int) (vc *VC, err error) {
 	vc = newVC(p, f)
+	if unroll > 0 {
+		vc.unrollLimit = unroll
+	}
 	vc.contract = ct
 	vc.sweep = sweep
 	vc.refute = refute
@@ -59,6 +67,8 @@ func (p *Program) verifyFunction(f *ssa.Function, ct *Contract, sweep, refute bo
 		vc.wellFormed(st, a)
 	}
 	pre := st.clone()
+	vc.paramVals = args
+	vc.preState = pre
 	fr0 := &Frame{vc: vc, fn: f, env: map[ssa.Value]Value{}, specEnv: env, contract: ct}
 	for i, prm := range f.Params {
 		fr0.env[prm] = args[i]
